@@ -42,7 +42,9 @@ LEVEL_NOTE = ('Excluded by design: Python subclasses of extension types as opera
               '__eq__ (Cython disables the directive with a warning; with __ne__ only it inverts __ne__ where functools uses '
               'the default identity __eq__) and total_ordering classes whose __eq__/__ne__ always return NotImplemented (functools '
               'evaluates `self == other` through the full protocol incl. identity fallback); for total_ordering classes defining both __eq__ and __ne__ the log entries of '
-              'the two are identified (functools evaluates `self != other`, Cython inverts __eq__).  c_api_binop_methods=False only.  '
+              'the two are identified (functools evaluates `self != other`, Cython inverts __eq__) and in every total_ordering class the '
+              'operand order of the equality call is not compared (functools goes through the full ==/!= protocol, which gives a '
+              'subclass operand the reflected call first; Cython calls __eq__(self, other) directly).  c_api_binop_methods=False only.  '
               'Trusted: CPython 3.12, gcc.')
 
 OPS_Q = ['add', 'sub', 'pow', 'matmul']
@@ -321,7 +323,21 @@ def sweep(cns, rns, work, cfg):
         both = 'eq' in assign and 'ne' in assign
 
         def normal(log):
-            return tuple((t.replace('__ne__', '__eq|ne__').replace('__eq__', '__eq|ne__'),) + tuple(r) for t, *r in log)
+            # total_ordering only.  functools evaluates `self == other` / `self != other` through the full protocol (a
+            # subclass operand gets the reflected call first, `!=` may go through __ne__), Cython calls __eq__(self, other)
+            # directly: the operand ORDER of the equality call (and, when both are defined, WHICH of __eq__/__ne__ runs)
+            # is a by-design difference; the number and position of the equality calls and all results are still compared
+            out = []
+            for t, *r in log:
+                if t.endswith('.__eq__') or t.endswith('.__ne__'):
+                    if both:
+                        t = t.replace('__ne__', '__eq|ne__').replace('__eq__', '__eq|ne__')
+                    try:
+                        r = [r[0], repr(tuple(sorted(eval(r[1]))))] + list(r[2:])
+                    except Exception:
+                        pass
+                out.append((t,) + tuple(r))
+            return tuple(out)
 
         def mk(ns, p):
             if p[0] == 'B':
@@ -342,7 +358,7 @@ def sweep(cns, rns, work, cfg):
         for pa, pb in pairs:
             for c in CMPS:
                 keyinfo = 'total_ordering' if ordering else 'richcmp'
-                compare(getattr(operator, c), 'a %s b' % c, pa, pb, mk, keyinfo, normal if (ordering and both) else None)
+                compare(getattr(operator, c), 'a %s b' % c, pa, pb, mk, keyinfo, normal if ordering else None)
         for p in (['B1', 'S0v1'] if ordering else ['B'] + ['S%d' % j for j in range(len(subs))]):
             compare(lambda a, b: _hashfn(a), 'hash(a)', p, p, mk, '%s|hash' % ('total_ordering' if ordering else 'richcmp'))
     return evals, mism, hashes, cnt
